@@ -79,7 +79,8 @@ fn expand(template: &str, hay: &str, m: &regress::Match, names: &[(String, usize
 }
 
 fn templates(rng: &mut Rng, exhaustive_len: usize, n_random: usize) -> Vec<String> {
-    let atoms: Vec<&str> = vec!["$", "0", "1", "2", "9", "{", "}", "a", "n", "é", "x"];
+    // includes non-ASCII numeric characters: "$²" is a dollar sign and a superscript two, not a group reference
+    let atoms: Vec<&str> = vec!["$", "0", "1", "2", "9", "{", "}", "a", "n", "é", "x", "²", "٣"];
     let mut v: Vec<String> = vec![String::new()];
     let mut frontier = vec![String::new()];
     for _ in 0..exhaustive_len {
@@ -92,7 +93,7 @@ fn templates(rng: &mut Rng, exhaustive_len: usize, n_random: usize) -> Vec<Strin
         v.extend(next.iter().cloned());
         frontier = next;
     }
-    let pieces = ["$$", "$0", "$1", "$2", "$3", "$10", "$01", "$99", "${a}", "${n}", "${}", "${nope}", "${é}", "${a", "$", "$x", "é", "-", "\u{10000}", "$65535", "$65536", "$123456789", "{", "}", "${a}}", "$$1", "$ 1"];
+    let pieces = ["$$", "$0", "$1", "$2", "$3", "$10", "$01", "$99", "${a}", "${n}", "${}", "${nope}", "${é}", "${a", "$", "$x", "é", "-", "\u{10000}", "$65535", "$65536", "$123456789", "{", "}", "${a}}", "$$1", "$ 1", "$²", "$①", "$１", "$½", "$٣0", "1$", "$-1", "$+1", "${1}", "${0}", "$\u{0}", "${ a}", "$ {a}"];
     for _ in 0..n_random {
         let k = rng.range(1, 5);
         let mut s = String::new();
